@@ -1,5 +1,6 @@
 import LruMem.Model.Step
 import LruMem.Model.MemSize
+import LruMem.Model.Ptr
 /-!
 # `lrudriver`: replays the harness's operation lines on the Level A model
 
@@ -91,23 +92,45 @@ def optPairStr : Option Entry → String
   | some e => pairStr (e.key, e.val)
 
 /-- The observation of a live cache. -/
-def obsStr (p : Params) (full : Bool) (c : Cache) : String :=
+def obsStr (p : Params) (full : Bool) (c : Cache) (lb : String := "ok") : String :=
   let base := s!" len={c.shape.items} cur={c.cur} max={c.max} cap={c.shape.capacity} bk={c.shape.buckets}"
   if full then
     base ++ " ord=[" ++ ",".intercalate (c.entries.map (entryStr p)) ++ "]"
       ++ " rs=" ++ natList (c.entries.map (·.size))
       ++ " rord=" ++ natList (c.entries.reverse.map (·.key.id))
       ++ " lru=" ++ optPairStr (lruOf c.entries) ++ " mru=" ++ optPairStr (mruOf c.entries)
+      ++ " lb=" ++ lb
   else base
 
 structure St where
   p : Params := ⟨64, 16, 18446744073709551615⟩
-  caches : Array (Option Cache) := #[]
+  caches : Array (Option (Cache × CacheB)) := #[]
 
-def St.get? (s : St) (i : Nat) : Option Cache := (s.caches[i]?).join
-def St.set (s : St) (i : Nat) (c : Option Cache) : St :=
+def St.get? (s : St) (i : Nat) : Option (Cache × CacheB) := (s.caches[i]?).join
+def St.set (s : St) (i : Nat) (c : Option (Cache × CacheB)) : St :=
   let cs := if i < s.caches.size then s.caches else s.caches ++ Array.replicate (i + 1 - s.caches.size) none
   { s with caches := cs.set! i c }
+
+/-- Driver-level: replace the closure chains of the Level B heap by array lookups (same function on
+every address below `fresh`, which are the only ones ever dereferenced validly). -/
+def compactB (c : CacheB) : CacheB :=
+  let n := c.fresh
+  let la := (Array.range n).map c.links
+  let sa := (Array.range n).map c.st
+  let ea := (Array.range n).map c.ent
+  let ha := (Array.range n).map c.has
+  { c with links := fun x => la.getD x ⟨0, 0⟩, st := fun x => sa.getD x .dead,
+           ent := fun x => ea.getD x default, has := fun x => ha.getD x false }
+
+/-- Level B against Level A: same entries in the same order, same totals, no undefined access. -/
+def lbStr (a : Cache) (b : CacheB) : String :=
+  if b.ub then "ub"
+  else if b.abs.entries != a.entries then "order"
+  else if b.abs.cur != a.cur || b.abs.max != a.max then "sizes"
+  else if b.shape != a.shape then "shape"
+  else if b.table.length != a.entries.length then "table"
+  else if (CacheB.walkNext b.links b.sl b.table.length (b.links b.sl).next) != b.order.reverse then "mirror"
+  else "ok"
 
 def parseKind : String → Option IterKind
   | "iter" => some .iter | "keys" => some .keys | "values" => some .values
@@ -176,24 +199,25 @@ def candidates (maxTombs : Nat) (allocOk : Bool) : List Oracle :=
   (List.range (maxTombs + 1)).flatMap fun t =>
     [{ tombs := t, reuse := false, allocOk := allocOk }, { tombs := t, reuse := true, allocOk := allocOk }]
 
-def pickOracle (run : Oracle → Res) (items : Nat) (ocap obk : Nat) (allocOk : Bool) : Res :=
-  let r0 := run { allocOk := allocOk }
-  if r0.cache.shape.capacity = ocap ∧ r0.cache.shape.buckets = obk then r0
+def pickOracle (run : Oracle → Res) (items : Nat) (ocap obk : Nat) (allocOk : Bool) : Oracle × Res :=
+  let o0 : Oracle := { allocOk := allocOk }
+  let r0 := run o0
+  if r0.cache.shape.capacity = ocap ∧ r0.cache.shape.buckets = obk then (o0, r0)
   else
     let k := items + 1 - r0.cache.shape.items
     match (candidates k allocOk).find? fun o =>
         let r := run o
         r.cache.shape.capacity = ocap ∧ r.cache.shape.buckets = obk with
-    | some o => run o
-    | none => r0
+    | some o => (o, run o)
+    | none => (o0, r0)
 
-def resLine (p : Params) (full sorted : Bool) (r : Res) (live : Option Cache) : String :=
+def resLine (p : Params) (full sorted : Bool) (r : Res) (live : Option Cache) (lb : String := "ok") : String :=
   let hs := hashIds r.evs
   let s := s!"ret={outStr r.out} st={statusStr r.status} h={hs.length} ev={evsStr r.evs sorted}"
   let s := if full then s ++ " hs=" ++ natList (sortBy id hs) else s
   match live with
-  | some c => s ++ obsStr p full c
-  | none => s
+  | some c => s ++ obsStr p full c lb
+  | none => if lb == "ok" then s else s ++ " lb=" ++ lb
 
 def processLine (s : St) (line : String) : St × String :=
   let line := line.trimAscii.toString
@@ -215,42 +239,45 @@ def processLine (s : St) (line : String) : St × String :=
       | _ => (s, "bad-op")
     | mode :: "new" :: rest =>
       match nats rest with
-      | some [i, m] => (s.set i (some (Cache.new m)),
+      | some [i, m] => (s.set i (some (Cache.new m, CacheB.new m 0)),
           "ret=unit st=ok h=0 ev=[]" ++ (if mode == "F" then " hs=[]" else "") ++ obsStr s.p (mode == "F") (Cache.new m))
-      | some [i, m, n] => (s.set i (some (Cache.withCapacity m n)),
+      | some [i, m, n] => (s.set i (some (Cache.withCapacity m n, CacheB.new m n)),
           "ret=unit st=ok h=0 ev=[]" ++ (if mode == "F" then " hs=[]" else "") ++ obsStr s.p (mode == "F") (Cache.withCapacity m n))
       | _ => (s, "bad-op")
     | [mode, "clone", i, j, base] =>
       match nats [i, j, base] with
       | some [i, j, base] =>
         match s.get? i with
-        | some c =>
+        | some (c, cb) =>
           let r := clone c base
+          let db := cb.clone base
           let res : Res := { cache := r.1, out := .cloned, evs := r.2.1, status := r.2.2 }
-          (s.set j (some r.1), resLine s.p (mode == "F") false res (some r.1))
+          (s.set j (some (r.1, compactB db)), resLine s.p (mode == "F") false res (some r.1) (lbStr r.1 db))
         | none => (s, "bad-cache")
       | _ => (s, "bad-op")
     | [mode, "drop", i] =>
       match i.toNat? with
       | some i =>
         match s.get? i with
-        | some c =>
+        | some (c, cb) =>
           let res : Res := { cache := c, out := .unit, evs := dropCache c }
-          (s.set i none, resLine s.p (mode == "F") true res none)
+          (s.set i none, resLine s.p (mode == "F") true res none (if cb.dropCache.ub then "ub" else "ok"))
         | none => (s, "bad-cache")
       | none => (s, "bad-op")
     | mode :: i :: opToks =>
       match i.toNat?, parseOp opToks with
       | some i, some op =>
         match s.get? i with
-        | some c =>
+        | some (c, cb) =>
           let full := mode == "F"
           if op.consumes then
             let r := step s.p c op {}
-            (s.set i none, resLine s.p full false r none)
+            let cb' := stepB s.p cb op {}
+            (s.set i none, resLine s.p full false r none (if cb'.ub then "ub" else "ok"))
           else
-            let r := pickOracle (step s.p c op) c.shape.items ocap obk allocOk
-            (s.set i (some r.cache), resLine s.p full (isSortedOp op) r (some r.cache))
+            let (o, r) := pickOracle (step s.p c op) c.shape.items ocap obk allocOk
+            let cb' := compactB (stepB s.p cb op o)
+            (s.set i (some (r.cache, cb')), resLine s.p full (isSortedOp op) r (some r.cache) (lbStr r.cache cb'))
         | none => (s, "bad-cache")
       | _, _ => (s, "bad-op")
     | _ => (s, "bad-op")
